@@ -100,3 +100,15 @@ package oauth
 //@   call (*authzServer).buildAccessToken #1 requires [token-only-for-a-validated-request] isNilIface(ret(call (*authzServer).validateAccessTokenRequest #1).1)
 //@        && same(arg(2), *ret(call (*authzServer).validateAccessTokenRequest #1).0.requester) && same(arg(3), *ret(call (*authzServer).validateAccessTokenRequest #1).0.authorizer)
 //@   ensures [no-token-without-validation] result.0 != nil ==> isNilIface(ret(call (*authzServer).validateAccessTokenRequest #1).1) && did(call (*authzServer).buildAccessToken #1) && isNilIface(ret(call (*authzServer).buildAccessToken #1).2)
+
+// Introspection of a v1 access token: it is verified only with a signing key whose private half this
+// node holds (the node issued it), resolved for the token's own kid.
+//@ func (crypto.KeyStore).Exists
+//@   trusted
+//@   benign
+//@ func (*authzServer).IntrospectAccessToken$1
+//@   prop C17
+//@   ensures [only-keys-this-node-holds] isNilIface(result.1) ==> did(call (crypto.KeyStore).Exists #1) && ret(call (crypto.KeyStore).Exists #1).0 == true && isNilIface(ret(call (crypto.KeyStore).Exists #1).1)
+//@        && arg(call (crypto.KeyStore).Exists #1, 2) == kid
+//@        && did(call (resolver.KeyResolver).ResolveKeyByID #1) && arg(call (resolver.KeyResolver).ResolveKeyByID #1, 1) == kid
+//@        && arg(call (resolver.KeyResolver).ResolveKeyByID #1, 3) == resolver.NutsSigningKeyType && result.0 == ret(call (resolver.KeyResolver).ResolveKeyByID #1).0
